@@ -11,6 +11,13 @@ Nothing here knows about Coq; it only records observations:
              ordering, result)
   tables   : column names of every returned table, in order
   orders   : iteration orders of the sets the engine iterates (input_features(), matched filters, links)
+A case may name an execution mode (config["mode"]: SYNC | THREADING | MULTIPROCESSING; job["flight"] = location of the
+Flight server started by the parent check).  All of the above is recorded in THIS process also then: planning happens
+before the run, and the selection of the result columns (identify_naming_convention) is done by the orchestrator's
+process after a worker thread finished / after the table uploaded by a worker PROCESS was downloaded.  What happens inside
+worker processes comes back through a file (harness/mp_obs.py):
+  uploads      : columns of every table a worker process uploaded to the Flight store (the whole object, all columns)
+  child_events : add_feature_to_collection / identify_naming_convention calls made inside a worker process (none expected)
 """
 from __future__ import annotations
 
@@ -22,6 +29,8 @@ import sys
 from typing import Any, Dict, List, Optional
 
 logging.disable(logging.CRITICAL)
+
+from harness import mp_obs  # noqa: E402
 
 FW_NAMES = ("arrow", "pandas", "pydict")
 
@@ -38,6 +47,7 @@ class Rec:
         self.filters: Dict[int, List[List[str]]] = {}
         self.links: Optional[List[list]] = None
         self.abstraction_errors: List[str] = []
+        self.plan_obj: Any = None
 
 
 REC = Rec()
@@ -79,6 +89,8 @@ def install() -> None:
 
     def add(self: Any, fgc: Any, feature: Any, child_uuid: Any, if_index_feature: bool = False) -> bool:
         r = orig_add(self, fgc, feature, child_uuid, if_index_feature)
+        if mp_obs.in_child():
+            mp_obs.emit({"ev": "child-add", "name": feature.name.name})
         REC.trace.append([_GID.get(fgc, -1), feature.name.name, feature_key(feature, fw_cls_getter()),
                           bool(feature.initial_requested_data), bool(r)])
         return r
@@ -92,7 +104,8 @@ def install() -> None:
             REC.links = [[_GID.get(l.left_feature_group, -1), list(l.left_index.index),
                           _GID.get(l.right_feature_group, -1), list(l.right_index.index)] for l in self.links]
         try:
-            return orig_plan(self, features)
+            REC.plan_obj = orig_plan(self, features)
+            return REC.plan_obj
         finally:
             REC.coll = sorted([_GID.get(g, -1), f.name.name, feature_key(f, fw_cls_getter()), bool(f.initial_requested_data)]
                               for g, fs in self.feature_group_collection.items() for f in fs)
@@ -104,6 +117,8 @@ def install() -> None:
     def ident(self: Any, selected_feature_names: Any, column_names: Any, ordering: Any = None) -> Any:
         it = [f.name for f in selected_feature_names]
         call = {"iter": it, "cols": sorted(column_names), "ordering": ordering}
+        if mp_obs.in_child():
+            mp_obs.emit({"ev": "child-ident", "iter": it})
         try:
             r = orig_ident(self, selected_feature_names, column_names, ordering)
         except ValueError:
@@ -215,7 +230,8 @@ def build_universe(U: dict, fw: str, tag: str) -> Dict[int, type]:
             d["feature_names_supported"] = classmethod(lambda cls, _s=tuple(g["supported"]): set(_s))
         if g.get("index"):
             d["index_columns"] = classmethod(lambda cls, _ix=tuple(tuple(i) for i in g["index"]): [Index(i) for i in _ix])
-        c = type(f"C03_{tag}_{fw}_{g['name']}", (FeatureGroup,), d)
+        # reachable as harness.dynclasses.<name>: MULTIPROCESSING pickles every step with its feature group class
+        c = mp_obs.register_class(type(f"C03_{tag}_{fw}_{g['name']}", (FeatureGroup,), d))
         classes[gid] = c
     _universe_cache[key] = classes
     return classes
@@ -236,8 +252,46 @@ def table_columns(t: Any) -> List[str]:
     return [f"<unknown table type {type(t).__name__}>"]
 
 
-def run_case(U: dict, C: dict, req: List[str], ordering: Optional[str]) -> dict:
-    from mloda.user import mloda, PluginCollector, GlobalFilter, Link, JoinSpec, Index
+_SINK: List[Any] = []
+
+
+def _sink() -> Any:
+    if not _SINK:
+        from lib import vlib
+        _SINK.append(mp_obs.Sink(str(vlib.BUILD / "C03" / "mp" / f"child_{os.getpid()}.jsonl")))
+    return _SINK[0]
+
+
+def exported_plan_and_footprint() -> Optional[Dict[str, Any]]:
+    """Steps of the plan of the last run_all (renamed uuids, required uuids, kinds, frameworks) and, per step, the
+    compute-framework object it wrote / read in the run just finished (harness/orch.py wrappers; SYNC run in this
+    process).  Input of conflict_free / conflict_free_x (Model/OrchCheck.v) and of the join-domain predicate."""
+    import types
+    from harness import orch
+    from harness.universe import export_plan
+    if REC.plan_obj is None:
+        return None
+    shim = types.SimpleNamespace(engine=types.SimpleNamespace(execution_planner=REC.plan_obj))
+    plan = export_plan(shim, None)
+    u2s = {st.uuid: i for i, st in enumerate(REC.plan_obj)}
+    objs: Dict[Any, int] = {}
+
+    def oid(x: Any) -> int:
+        if x not in objs:
+            objs[x] = len(objs) + 1
+        return objs[x]
+    foot = {u2s[k]: [oid(w), [oid(w)] + ([oid(r)] if r is not None else [])] for k, (w, r) in orch.REC.foot.items() if k in u2s}
+    return {"steps": [{k: v for k, v in st.items() if k in ("sid", "kind", "uuids", "req", "requested", "cfw", "left_cfw", "right_cfw")}
+                      for st in plan["steps"]], "foot": {str(k): v for k, v in sorted(foot.items())}}
+
+
+def run_case(U: dict, C: dict, req: List[str], ordering: Optional[str], mode: str = "SYNC", flight: Optional[str] = None,
+             probe: bool = False) -> dict:
+    from mloda.user import mloda, PluginCollector, GlobalFilter, Link, JoinSpec, Index, ParallelizationMode
+    if probe:
+        from harness import orch
+        orch.install()
+        orch.REC.reset()
     fw = C["fw"]
     classes = build_universe(U, fw, U["tag"])
     _GID.clear()
@@ -254,20 +308,61 @@ def run_case(U: dict, C: dict, req: List[str], ordering: Optional[str]) -> dict:
         for name in C["filters"]:
             gf.add_filter(name, "min", {"value": -1000})
     REC.reset()
-    out: Dict[str, Any] = {"req": req, "ordering": ordering}
+    out: Dict[str, Any] = {"req": req, "ordering": ordering, "mode": mode}
+    kw: Dict[str, Any] = {}
+    sink = None
+    if mode != "SYNC":
+        kw["parallelization_modes"] = {ParallelizationMode[mode]}
+        sink = _sink()
+        sink.reset()
+    if mode == "MULTIPROCESSING":
+        # the Flight store holds Arrow tables: the pandas / python-dict transformers must be registered (plug-in modules)
+        import mloda_plugins.compute_framework.base_implementations.python_dict.python_dict_pyarrow_transformer  # noqa: F401
+        import mloda_plugins.compute_framework.base_implementations.pandas.pandaspyarrowtransformer  # noqa: F401
+        mp_obs.install_upload_events(table_columns)
+        kw["flight_server"] = mp_obs.FlightHandle(flight) if flight else None
+    mp_obs.CUR["sink"] = sink
+
+    def call() -> Any:
+        return mloda.run_all(list(req), compute_frameworks={fw_class(fw)}, links=links, global_filter=gf,
+                             plugin_collector=PluginCollector.enabled_feature_groups(set(classes.values())),
+                             column_ordering=ordering, **kw)
     try:
-        res = mloda.run_all(list(req), compute_frameworks={fw_class(fw)}, links=links, global_filter=gf,
-                            plugin_collector=PluginCollector.enabled_feature_groups(set(classes.values())),
-                            column_ordering=ordering)
+        if mode == "SYNC":
+            res = call()
+        else:
+            def again() -> None:
+                REC.reset()
+                if sink is not None:
+                    sink.reset()
+            status, res, n_to = mp_obs.watchdog_retry(call, 40.0, again)
+            out["timeouts"] = n_to
+            if status == "hang":
+                raise TimeoutError("HANG: run_all did not return within 40 s, twice")
+            if status == "raised":
+                raise res
         out["tables"] = [table_columns(t) for t in res]
         out["exc"] = None
     except Exception as e:  # noqa: BLE001
         out["tables"] = None
         msg = " ".join(str(e).split())
         out["exc"] = f"{type(e).__name__}: {msg[:120]} ... {msg[-220:]}" if len(msg) > 360 else f"{type(e).__name__}: {msg}"
+    finally:
+        mp_obs.CUR["sink"] = None
     out.update({"trace": list(REC.trace), "coll": REC.coll, "calls": list(REC.calls),
                 "inputs": {str(k): v for k, v in REC.inputs.items()}, "filters": {str(k): v for k, v in REC.filters.items()},
                 "links": REC.links, "abs_err": REC.abstraction_errors[:3]})
+    if probe and mode == "SYNC":
+        try:
+            out["plan"] = exported_plan_and_footprint()
+        except Exception as e:  # noqa: BLE001
+            out["plan"] = None
+            out["plan_err"] = f"{type(e).__name__}: {e}"[:200]
+    if sink is not None:
+        lines = sink.read()
+        out["uploads"] = [l["cols"] for l in lines if l["ev"] == "upload"]
+        out["child_events"] = [l["ev"] for l in lines if l["ev"] in ("child-add", "child-ident")]
+        out["worker_processes"] = len({l["pid"] for l in lines if l.get("child")})
     REC.reset()
     return out
 
@@ -327,7 +422,9 @@ def run_job(job: dict) -> dict:
     res: Dict[str, Any] = {"hashseed": os.environ.get("PYTHONHASHSEED"), "cases": [], "unit": [], "names": []}
     if job.get("cases"):
         for req, ordering in job["cases"]:
-            res["cases"].append(run_case(job["universe"], job["config"], req, ordering))
+            for mode in job.get("modes") or ["SYNC"]:
+                res["cases"].append(run_case(job["universe"], job["config"], req, ordering, mode, job.get("flight"),
+                                             probe=bool(job.get("modes"))))
     if job.get("unit"):
         res["unit"] = unit_cases(job["unit"]["seed"], job["unit"]["n"])
         res["names"] = name_cases(job["unit"]["seed"], job["unit"].get("n_names", 0))
